@@ -237,7 +237,7 @@ func check(id, tier string) int {
 			outf := filepath.Join(work, fmt.Sprintf("out-%d.json", i))
 			// the order in which shards take scenarios is permuted by the seed; the set explored is not
 			cmd := exec.Command(bin, "-tier", tier, "-shard", strconv.Itoa((i+seed)%shards), "-shards", strconv.Itoa(shards),
-				"-out", outf, "-budget", budget.String(), "-replaydir", filepath.Join(verif, "replays"), id)
+				"-out", outf, "-queue", filepath.Join(work, "queue"), "-budget", budget.String(), "-replaydir", filepath.Join(verif, "replays"), id)
 			cmd.Env = append(goEnv(), "GOMAXPROCS=2")
 			cmd.Dir = work
 			out, err := cmd.CombinedOutput()
